@@ -1,31 +1,70 @@
 (* Proofs/SchemaTxProofs.v -- explicit transactions (Model/SchemaTx.v): a rejected call adds nothing to
    what the transaction publishes; a commit publishes exactly the files of the accepted calls; anything but a
-   successful commit publishes nothing; scans keep working after any history of transactions. *)
+   successful commit publishes nothing; after any history of transactions (records and pre-built files, with
+   or without caller-supplied statistics) full scans work, pruned filtered scans equal unpruned ones, and the
+   full scan returns exactly what the accepted calls supplied.
+
+   The behaviour under storage faults is derived from the flags REGENERATED from the source
+   (Gen/GenSchema.v: resolve_refresh_propagates, marker_failure_propagates, queue_failure_propagates): the
+   proofs below compute with their current values, so a source in which a failing refresh() no longer reaches
+   the caller breaks them. *)
 From Coq Require Import ZArith QArith List Bool Lia.
 Require Import DS.Model.Value DS.Gen.GenPrune DS.Model.Prune DS.Gen.GenSchema DS.Model.Schema DS.Model.SchemaTx.
 Require Import DS.Proofs.PruneProofs DS.Proofs.SchemaProofs.
 Import ListNotations.
 Open Scope Z_scope.
 
+Lemma file_may_match_nobounds ids es : file_may_match [] [] ids es = true.
+Proof. induction es as [|e es IH]; simpl; [reflexivity|]. destruct (lookup (fcol e) ids); exact IH. Qed.
+
+Lemma rows_to_dfile t1 fs : flat_map df_rows (map (to_dfile t1) fs) = flat_map pf_rows fs.
+Proof. induction fs as [|p fs IH]; simpl; [reflexivity | rewrite IH; reflexivity]. Qed.
+
 Section TxProofs.
-  Variable conv : atype -> pyval -> option pyval.
+  Variable conv : catype -> pyval -> option pyval.
 
   Lemma tag_of_rej o : o <> Accepted -> tag_of o <> 0.
   Proof. destruct o; simpl; intro H; try discriminate; contradiction H; reflexivity. Qed.
 
+  (* ---- what the source does with a failing refresh() (regenerated) ---- *)
+  Lemma seen_unreadable w : seen_schema true w = None.
+  Proof. reflexivity. Qed.
+  Lemma seen_readable w : seen_schema false w = Some (w_schema w).
+  Proof. reflexivity. Qed.
+
   (* ---- one call ---- *)
-  Lemma stage_records_spec late w h arg recs w' fo wr t :
-    stage_records conv late w h arg recs = (w', fo, wr, t) ->
+  Lemma stage_records_spec s1 m s2 w h arg recs w' fo wr t :
+    stage_records conv s1 m s2 w h arg recs = (w', fo, wr, t) ->
     w_schema w' = w_schema w /\ w_snaps w' = w_snaps w /\ (t <> 0 -> fo = None).
   Proof.
-    unfold stage_records. destruct (resolve (w_schema w) arg) as [s|o].
-    2:{ intro H; inversion H; subst. auto. }
+    unfold stage_records. destruct s1 as [t1|]; [|intro H; inversion H; subst; auto].
+    destruct (resolve t1 arg) as [s|o]; [|intro H; inversion H; subst; auto].
+    destruct (m && marker_failure_propagates); [intro H; inversion H; subst; auto|].
     destruct (negb (forallb (validate_record (sfields s)) recs)); [intro H; inversion H; subst; auto|].
     destruct (create_arrow_schema (cache_of w h) s) as [a c'].
     destruct (convert conv a recs) as [rows|]; [|intro H; inversion H; subst; auto].
     destruct (bounds_for (sfields s) a rows) as [lo hi].
-    destruct late; [intro H; inversion H; subst; simpl; auto|].
+    destruct s2 as [t2|]; [|intro H; inversion H; subst; simpl; auto].
     match goal with |- context [check_files ?x ?y ?z] => destruct (check_files x y z) as [c2 ok] end.
+    destruct ok; intro H; inversion H; subst; simpl; repeat split; auto. intro N; contradiction N; reflexivity.
+  Qed.
+
+  Lemma call_records_spec s1 m s2 w h arg recs w' wr t added :
+    call_records conv s1 m s2 w h arg recs = (w', wr, t, added) ->
+    w_schema w' = w_schema w /\ w_snaps w' = w_snaps w /\ (t <> 0 -> added = []).
+  Proof.
+    unfold call_records. destruct (stage_records conv s1 m s2 w h arg recs) as [[[w1 fo] wr1] t1] eqn:S.
+    destruct (stage_records_spec _ _ _ _ _ _ _ _ _ _ _ S) as [H1 [H2 H3]].
+    destruct fo as [f|]; intro H; inversion H; subst; repeat split; auto.
+    intro N. specialize (H3 N). discriminate.
+  Qed.
+
+  Lemma call_files_spec s1 w h fs w' wr t added :
+    call_files s1 w h fs = (w', wr, t, added) ->
+    w_schema w' = w_schema w /\ w_snaps w' = w_snaps w /\ (t <> 0 -> added = []).
+  Proof.
+    unfold call_files. destruct s1 as [t1|]; [|intro H; inversion H; subst; auto].
+    destruct (check_files t1 (cache_of w h) fs) as [c' ok].
     destruct ok; intro H; inversion H; subst; simpl; repeat split; auto. intro N; contradiction N; reflexivity.
   Qed.
 
@@ -34,27 +73,15 @@ Section TxProofs.
     call_step conv w h c = (w', wr, t, added) ->
     w_schema w' = w_schema w /\ w_snaps w' = w_snaps w /\ (t <> 0 -> added = []).
   Proof.
-    assert (R : forall late arg recs, call_records conv late w h arg recs = (w', wr, t, added) ->
-                w_schema w' = w_schema w /\ w_snaps w' = w_snaps w /\ (t <> 0 -> added = [])).
-    { intros late arg recs. unfold call_records. destruct (stage_records conv late w h arg recs) as [[[w1 fo] wr1] t1] eqn:S.
-      destruct (stage_records_spec _ _ _ _ _ _ _ _ _ S) as [H1 [H2 H3]].
-      destruct fo as [f|]; intro H; inversion H; subst; repeat split; auto.
-      intro N. specialize (H3 N). discriminate. }
-    assert (F : forall fs, call_files w h fs = (w', wr, t, added) ->
-                w_schema w' = w_schema w /\ w_snaps w' = w_snaps w /\ (t <> 0 -> added = [])).
-    { intros fs. unfold call_files. destruct (check_files (w_schema w) (cache_of w h) fs) as [c' ok].
-      destruct ok; intro H; inversion H; subst; simpl; repeat split; auto. intro N; contradiction N; reflexivity. }
-    destruct c as [arg recs|fs|ft arg recs|ft fs]; simpl.
-    - apply R.
-    - apply F.
-    - destruct ft.
-      + intro H; inversion H; subst; auto.
-      + destruct (resolve (w_schema w) arg); intro H; inversion H; subst; auto.
-      + apply R.
-    - destruct ft; try apply F. intro H; inversion H; subst; auto.
+    destruct c as [arg recs|fs|ft arg recs|ft fs]; unfold call_step.
+    - apply call_records_spec.
+    - apply call_files_spec.
+    - destruct ft; apply call_records_spec.
+    - destruct ft; apply call_files_spec.
   Qed.
 
-  (* C11_tx_fault_fails_closed: unreadable metadata is never taken for "no persisted schema" *)
+  (* C11_tx_fault_fails_closed: unreadable metadata is never taken for "no persisted schema" -- BECAUSE the
+     regenerated flags say that the failures propagate *)
   Lemma resolve_inr_tag t0 arg o : resolve t0 arg = inr o -> tag_of o <> 0.
   Proof.
     unfold resolve. destruct arg as [a|], t0 as [s|]; try discriminate.
@@ -62,16 +89,27 @@ Section TxProofs.
     - intro H; inversion H; subst; discriminate.
   Qed.
 
-  Lemma stage_records_late w h arg recs w' fo wr t :
-    stage_records conv true w h arg recs = (w', fo, wr, t) -> t <> 0 /\ fo = None.
+  Lemma stage_records_late s1 m w h arg recs w' fo wr t :
+    stage_records conv s1 m None w h arg recs = (w', fo, wr, t) -> t <> 0 /\ fo = None.
   Proof.
-    unfold stage_records. destruct (resolve (w_schema w) arg) as [s|o] eqn:R.
+    unfold stage_records. destruct s1 as [t1|]; [|intro H; inversion H; subst; split; [discriminate | reflexivity]].
+    destruct (resolve t1 arg) as [s|o] eqn:R.
     2:{ intro H; inversion H; subst. split; [exact (resolve_inr_tag _ _ _ R) | reflexivity]. }
+    destruct (m && marker_failure_propagates); [intro H; inversion H; subst; split; [discriminate | reflexivity]|].
     destruct (negb (forallb (validate_record (sfields s)) recs)); [intro H; inversion H; subst; split; [discriminate | reflexivity]|].
     destruct (create_arrow_schema (cache_of w h) s) as [a c'].
     destruct (convert conv a recs) as [rows|]; [|intro H; inversion H; subst; split; [discriminate | reflexivity]].
     destruct (bounds_for (sfields s) a rows) as [lo hi].
     intro H; inversion H; subst. split; [discriminate | reflexivity].
+  Qed.
+
+  Lemma stage_records_marker s1 s2 w h arg recs w' fo wr t :
+    stage_records conv s1 true s2 w h arg recs = (w', fo, wr, t) -> t <> 0 /\ fo = None.
+  Proof.
+    unfold stage_records. destruct s1 as [t1|]; [|intro H; inversion H; subst; split; [discriminate | reflexivity]].
+    destruct (resolve t1 arg) as [s|o] eqn:R.
+    - simpl. intro H; inversion H; subst. split; [discriminate | reflexivity].
+    - intro H; inversion H; subst. split; [exact (resolve_inr_tag _ _ _ R) | reflexivity].
   Qed.
 
   Lemma fault_fails_closed w h :
@@ -80,13 +118,13 @@ Section TxProofs.
     /\ (forall ft arg recs w' wr t added, call_step conv w h (CRecordsF ft arg recs) = (w', wr, t, added) -> t <> 0 /\ added = []).
   Proof.
     split; [reflexivity|]. split; [reflexivity|].
-    intros ft arg recs w' wr t added. destruct ft; simpl.
-    - intro H; inversion H; subst. split; [discriminate | reflexivity].
-    - destruct (resolve (w_schema w) arg) as [s|o] eqn:R; intro H; inversion H; subst.
-      + split; [discriminate | reflexivity].
-      + split; [exact (resolve_inr_tag _ _ _ R) | reflexivity].
-    - unfold call_records. destruct (stage_records conv true w h arg recs) as [[[w1 fo] wr1] t1] eqn:S.
-      destruct (stage_records_late _ _ _ _ _ _ _ _ S) as [T ->]. intro H; inversion H; subst. split; [exact T | reflexivity].
+    intros ft arg recs w' wr t added. unfold call_step, call_records. destruct ft.
+    - rewrite seen_unreadable. simpl. intro H; inversion H; subst. split; [discriminate | reflexivity].
+    - destruct (stage_records conv (seen_schema false w) true (seen_schema false w) w h arg recs) as [[[w1 fo] wr1] t1] eqn:S.
+      destruct (stage_records_marker _ _ _ _ _ _ _ _ _ _ S) as [T ->]. intro H; inversion H; subst. split; [exact T | reflexivity].
+    - rewrite seen_unreadable.
+      destruct (stage_records conv (seen_schema false w) false None w h arg recs) as [[[w1 fo] wr1] t1] eqn:S.
+      destruct (stage_records_late _ _ _ _ _ _ _ _ _ _ S) as [T ->]. intro H; inversion H; subst. split; [exact T | reflexivity].
   Qed.
 
   (* ---- the calls of a transaction ---- *)
@@ -115,22 +153,23 @@ Section TxProofs.
       inversion H; subst. simpl. f_equal. exact (IH _ _ _ _ _ R).
   Qed.
 
-  (* C11_tx_publishes_accepted_only: a successful commit adds ONE snapshot holding the base files plus
-     exactly the files queued by the accepted calls, in call order -- or no snapshot when no call queued
-     anything; the files of a call that raised are not among them *)
-  Lemma tx_commit_publishes w t :
+  (* C11_tx_publishes_accepted_only: for THE trace of the transaction's calls (run_calls: per call, the tag
+     and the files call_step let it queue) -- a successful commit adds ONE snapshot holding the base files plus
+     exactly the files queued by the accepted calls, in call order, or no snapshot when no call queued anything;
+     a call that raised (tag <> 0) is in the trace with no files *)
+  Lemma tx_commit_publishes w t w' q tr :
+    run_calls conv w tx_empty (t_handle t) (t_calls t) = (w', q, tr) ->
     t_end t = EndCommit true ->
-    exists tr, honest tr /\ length tr = length (t_calls t)
-      /\ w_schema (run_tx conv w t) = w_schema w
-      /\ w_snaps (run_tx conv w t) = match flat_map snd tr with
-                                     | [] => w_snaps w
-                                     | fs => (current w ++ fs) :: w_snaps w
-                                     end.
+    honest tr /\ length tr = length (t_calls t) /\ q_files q = flat_map snd tr
+    /\ w_schema (run_tx conv w t) = w_schema w
+    /\ w_snaps (run_tx conv w t) = match flat_map snd tr with
+                                   | [] => w_snaps w
+                                   | fs => (current w ++ fs) :: w_snaps w
+                                   end.
   Proof.
-    intro E. unfold run_tx. destruct (run_calls conv w tx_empty (t_handle t) (t_calls t)) as [[w1 q] tr] eqn:R.
+    intros R E. unfold run_tx. rewrite R.
     destruct (run_calls_spec _ _ _ _ _ _ _ R) as [Q [Hn [S1 S2]]]. simpl in Q.
-    exists tr. split; [exact Hn|]. split.
-    { exact (run_calls_length _ _ _ _ _ _ _ R). }
+    split; [exact Hn|]. split; [exact (run_calls_length _ _ _ _ _ _ _ R)|]. split; [exact Q|].
     rewrite E. simpl. rewrite Q. simpl. destruct (flat_map snd tr) as [|f fs]; [split; assumption|].
     simpl. split; [exact S1|]. unfold current. rewrite S2. reflexivity.
   Qed.
@@ -149,146 +188,383 @@ Section TxProofs.
     unfold full_scan, current. rewrite G2, S2. reflexivity.
   Qed.
 
-  (* ---- scans keep working after any history of transactions ---- *)
+  (* ---- histories of transactions: a generic invariant ----
+     P: what is shown of every published file; Q: what is assumed of the pre-built files handed in. *)
   Variable ts : ischema.
-  Let A := arrow_of (sfields ts).
+  Let T := sfields ts.
+  Let A := arrow_of T.
 
-  Record InvT (w : world) : Prop := {
-    it_schema : w_schema w = Some ts;
-    it_caches : forall h c, In (h, c) (w_caches w) -> cache_ok ts c;
-    it_files : forall snap f, In snap (w_snaps w) -> In f snap -> df_arrow f = A
-  }.
+  Section Generic.
+    Variable P : dfile -> Prop.
+    Variable Q : pfile -> Prop.
+    Hypothesis P_records : forall id rs rows lo hi, convert conv A rs = Some rows -> (lo, hi) = bounds_for T A rows ->
+      P {| df_id := id; df_arrow := A; df_rows := rows; df_lo := lo; df_hi := hi |}.
+    Hypothesis P_files : forall p, Q p -> footer_of p = A -> P (to_dfile (Some ts) p).
+
+    Record InvP (w : world) : Prop := {
+      ip_schema : w_schema w = Some ts;
+      ip_caches : forall h c, In (h, c) (w_caches w) -> cache_ok ts c;
+      ip_files : forall snap f, In snap (w_snaps w) -> In f snap -> P f
+    }.
+
+    Definition call_Q (c : call) : Prop := match c with CFiles fs | CFilesF _ fs => Forall Q fs | _ => True end.
+    Definition txn_Q (t : txn) : Prop := Forall call_Q (t_calls t).
+
+    Lemma invp_init : InvP (init (Some ts)).
+    Proof. constructor; simpl; auto; intros; contradiction. Qed.
+
+    Lemma invp_cache_of w h : InvP w -> cache_ok ts (cache_of w h).
+    Proof.
+      intro I. unfold cache_of. destruct (lookup h (w_caches w)) as [c|] eqn:L.
+      - apply lookup_In in L. exact (ip_caches w I h c L).
+      - intros k a [].
+    Qed.
+
+    Lemma check_files_ok fs : forall c c' ok, cache_ok ts c -> check_files (Some ts) c fs = (c', ok) ->
+      cache_ok ts c' /\ (ok = true -> forall p, In p fs -> footer_of p = A).
+    Proof.
+      induction fs as [|p r IH]; simpl; intros c c' ok C H.
+      - inversion H; subst. split; [exact C | intros _ q []].
+      - destruct (pf_canonical p && pf_exists p && pf_parquet p).
+        2:{ inversion H; subst. split; [exact C | discriminate]. }
+        destruct (create_arrow_schema c ts) as [a c1] eqn:CA.
+        destruct (create_ok ts _ _ _ _ C eq_refl CA) as [Ea C1]. subst a.
+        destruct (pf_footer p) as [ft|] eqn:F.
+        2:{ inversion H; subst. split; [exact C1 | discriminate]. }
+        destruct (aschema_eqb ft (arrow_of (sfields ts))) eqn:EQ.
+        + destruct (IH _ _ _ C1 H) as [C2 Pf]. split; [exact C2|]. intros O q [->|Hq]; [|exact (Pf O q Hq)].
+          unfold footer_of. rewrite F. apply aschema_eqb_eq. exact EQ.
+        + inversion H; subst. split; [exact C1 | discriminate].
+    Qed.
+
+    Lemma invp_set_cache w h c : InvP w -> cache_ok ts c -> InvP (set_cache w h c).
+    Proof.
+      intros I C. constructor; simpl; try apply I. intros h0 c0 [E|H]; [inversion E; subst; exact C | exact (ip_caches w I h0 c0 H)].
+    Qed.
+
+    Lemma invp_with_store w st n : InvP w -> InvP (with_store w st n).
+    Proof. intro I. constructor; simpl; apply I. Qed.
+
+    (* what _resolve_table_schema can have yielded on this table: the call raised, or the table's schema *)
+    Definition seen_ok (s : option (option ischema)) : Prop := s = None \/ s = Some (Some ts).
+
+    Lemma seen_schema_ok b w : InvP w -> seen_ok (seen_schema b w).
+    Proof.
+      intro I. destruct b; [left; apply seen_unreadable | right; rewrite seen_readable, (ip_schema w I); reflexivity].
+    Qed.
+
+    Lemma stage_records_invp s1 m s2 w h arg recs w' fo wr t : seen_ok s1 -> seen_ok s2 -> InvP w ->
+      stage_records conv s1 m s2 w h arg recs = (w', fo, wr, t) ->
+      InvP w' /\ forall f, fo = Some f -> P f.
+    Proof.
+      intros [->| ->] K2 I; unfold stage_records; [intro H; inversion H; subst; split; [exact I | discriminate]|].
+      destruct (resolve (Some ts) arg) as [s|o] eqn:R.
+      2:{ intro H; inversion H; subst. split; [exact I | discriminate]. }
+      pose proof (resolve_fields ts _ _ R) as F.
+      destruct (m && marker_failure_propagates); [intro H; inversion H; subst; split; [exact I | discriminate]|].
+      destruct (negb (forallb (validate_record (sfields s)) recs)); [intro H; inversion H; subst; split; [exact I | discriminate]|].
+      destruct (create_arrow_schema (cache_of w h) s) as [a c'] eqn:CA.
+      destruct (create_ok ts _ _ _ _ (invp_cache_of w h I) F CA) as [Ea Cc]. subst a.
+      pose proof (invp_set_cache w h c' I Cc) as I1.
+      destruct (convert conv (arrow_of (sfields ts)) recs) as [rows|] eqn:CV; [|intro H; inversion H; subst; split; [exact I1 | discriminate]].
+      rewrite F. destruct (bounds_for (sfields ts) (arrow_of (sfields ts)) rows) as [lo hi] eqn:B.
+      set (w2 := with_store (set_cache w h c') (w_next w :: w_store (set_cache w h c')) (w_next w + 1)).
+      pose proof (invp_with_store _ (w_next w :: w_store (set_cache w h c')) (w_next w + 1) I1) as I2. fold w2 in I2.
+      destruct K2 as [->| ->]; [intro H; inversion H; subst; split; [exact I2 | discriminate]|].
+      match goal with |- context [check_files ?x ?y ?z] => destruct (check_files x y z) as [c2 ok] eqn:CF end.
+      destruct (check_files_ok _ _ _ _ (invp_cache_of w2 h I2) CF) as [C2 _].
+      pose proof (invp_set_cache w2 h c2 I2 C2) as I3.
+      destruct ok; intro H; inversion H; subst; (split; [exact I3|]).
+      - intros f E. inversion E; subst. apply (P_records _ recs); [exact CV | symmetry; exact B].
+      - discriminate.
+    Qed.
+
+    Lemma call_records_invp s1 m s2 w h arg recs w' wr t added : seen_ok s1 -> seen_ok s2 -> InvP w ->
+      call_records conv s1 m s2 w h arg recs = (w', wr, t, added) ->
+      InvP w' /\ forall f, In f added -> P f.
+    Proof.
+      intros K1 K2 I. unfold call_records. destruct (stage_records conv s1 m s2 w h arg recs) as [[[w1 fo] wr1] t1] eqn:S.
+      destruct (stage_records_invp _ _ _ _ _ _ _ _ _ _ _ K1 K2 I S) as [I1 Pf].
+      destruct fo as [f0|]; intro H; inversion H; subst; (split; [exact I1|]).
+      - intros f [<-|[]]. apply Pf. reflexivity.
+      - intros f [].
+    Qed.
+
+    Lemma call_files_invp s1 w h fs w' wr t added : seen_ok s1 -> InvP w -> Forall Q fs ->
+      call_files s1 w h fs = (w', wr, t, added) ->
+      InvP w' /\ forall f, In f added -> P f.
+    Proof.
+      intros [->| ->] I QF; unfold call_files; [intro H; inversion H; subst; split; [exact I | intros f []]|].
+      destruct (check_files (Some ts) (cache_of w h) fs) as [c' ok] eqn:CF.
+      destruct (check_files_ok _ _ _ _ (invp_cache_of w h I) CF) as [C1 Pf].
+      pose proof (invp_set_cache w h c' I C1) as I1.
+      destruct ok; intro H; inversion H; subst; (split; [exact I1|]).
+      - intros f Hf. apply in_map_iff in Hf. destruct Hf as [p [<- Hp]].
+        apply P_files; [rewrite Forall_forall in QF; exact (QF p Hp) | exact (Pf eq_refl p Hp)].
+      - intros f [].
+    Qed.
+
+    Lemma call_step_invp w h c w' wr t added : InvP w -> call_Q c -> call_step conv w h c = (w', wr, t, added) ->
+      InvP w' /\ forall f, In f added -> P f.
+    Proof.
+      intros I QC. pose proof (seen_schema_ok false w I) as K0. pose proof (seen_schema_ok true w I) as K1.
+      destruct c as [arg recs|fs|ft arg recs|ft fs]; unfold call_step.
+      - apply call_records_invp; assumption.
+      - apply call_files_invp; assumption.
+      - destruct ft; apply call_records_invp; assumption.
+      - destruct ft; apply call_files_invp; assumption.
+    Qed.
+
+    Lemma run_calls_invp h cs : forall w q w' q' tr, InvP w -> (forall f, In f (q_files q) -> P f) -> Forall call_Q cs ->
+      run_calls conv w q h cs = (w', q', tr) -> InvP w' /\ forall f, In f (q_files q') -> P f.
+    Proof.
+      induction cs as [|c cs IH]; simpl; intros w q w' q' tr I Qf QC H.
+      - inversion H; subst. auto.
+      - destruct (call_step conv w h c) as [[[w1 wr] t] added] eqn:C.
+        destruct (run_calls conv w1 (enqueue q wr added) h cs) as [[w2 q2] tr2] eqn:R.
+        inversion H; subst. inversion QC as [|? ? QC1 QC2]; subst.
+        destruct (call_step_invp _ _ _ _ _ _ _ I QC1 C) as [I1 Ad].
+        eapply IH; [exact I1| |exact QC2|exact R]. simpl. intros f Hf. apply in_app_or in Hf. destruct Hf; auto.
+    Qed.
+
+    Lemma run_tx_invp w t : InvP w -> txn_Q t -> InvP (run_tx conv w t).
+    Proof.
+      intros I QT. unfold run_tx. destruct (run_calls conv w tx_empty (t_handle t) (t_calls t)) as [[w1 q] tr] eqn:R.
+      assert (Q0 : forall f, In f (q_files tx_empty) -> P f) by (intros f []).
+      destruct (run_calls_invp _ _ _ _ _ _ _ I Q0 QT R) as [I1 Qf].
+      destruct (t_end t) as [[|]| |]; simpl; auto; try (apply invp_with_store; exact I1).
+      2:{ destruct (q_files q); [exact I1 | apply invp_with_store; exact I1]. }
+      destruct (q_files q) as [|f0 fs0] eqn:QF; [exact I1|].
+      constructor; simpl; try apply I1. intros snap f [E|H] Hf.
+      - subst snap. apply in_app_or in Hf. destruct Hf as [Hf|Hf]; [|apply Qf; exact Hf].
+        destruct (current_in _ _ Hf) as [sn [H1 H2]]. exact (ip_files w1 I1 sn f H1 H2).
+      - exact (ip_files w1 I1 snap f H Hf).
+    Qed.
+
+    Lemma run_txs_invp txs : forall w, InvP w -> Forall txn_Q txs -> InvP (run_txs conv w txs).
+    Proof.
+      induction txs as [|t txs IH]; simpl; intros w I QT; [exact I|].
+      inversion QT; subst. apply IH; [apply run_tx_invp; assumption | assumption].
+    Qed.
+  End Generic.
+
+  (* ---- instance 1: every published file carries the table's Arrow schema (nothing assumed of the files) ---- *)
+  Definition has_layout (f : dfile) : Prop := df_arrow f = A.
+  Definition any_pfile (p : pfile) : Prop := True.
+  Definition InvT : world -> Prop := InvP has_layout.
+
+  Lemma layout_records : forall id rs rows lo hi, convert conv A rs = Some rows -> (lo, hi) = bounds_for T A rows ->
+    has_layout {| df_id := id; df_arrow := A; df_rows := rows; df_lo := lo; df_hi := hi |}.
+  Proof. intros; reflexivity. Qed.
+  Lemma layout_files : forall p, any_pfile p -> footer_of p = A -> has_layout (to_dfile (Some ts) p).
+  Proof. intros p _ F. exact F. Qed.
+
+  Lemma any_calls cs : Forall (call_Q any_pfile) cs.
+  Proof.
+    apply Forall_forall. intros c _. destruct c; simpl; auto; apply Forall_forall; intros; exact I.
+  Qed.
+  Lemma any_txs txs : Forall (txn_Q any_pfile) txs.
+  Proof. apply Forall_forall. intros t _. apply any_calls. Qed.
 
   Lemma invt_init : InvT (init (Some ts)).
-  Proof. constructor; simpl; auto; intros; contradiction. Qed.
-
-  Lemma invt_cache_of w h : InvT w -> cache_ok ts (cache_of w h).
-  Proof.
-    intro I. unfold cache_of. destruct (lookup h (w_caches w)) as [c|] eqn:L.
-    - apply lookup_In in L. exact (it_caches w I h c L).
-    - intros k a [].
-  Qed.
-
-  Lemma check_files_ok fs : forall c c' ok, cache_ok ts c -> check_files (Some ts) c fs = (c', ok) ->
-    cache_ok ts c' /\ (ok = true -> forall p, In p fs -> footer_of p = A).
-  Proof.
-    induction fs as [|p r IH]; simpl; intros c c' ok C H.
-    - inversion H; subst. split; [exact C | intros _ q []].
-    - destruct (pf_canonical p && pf_exists p && pf_parquet p).
-      2:{ inversion H; subst. split; [exact C | discriminate]. }
-      destruct (create_arrow_schema c ts) as [a c1] eqn:CA.
-      destruct (create_ok ts _ _ _ _ C eq_refl CA) as [Ea C1]. subst a.
-      destruct (pf_footer p) as [ft|] eqn:F.
-      2:{ inversion H; subst. split; [exact C1 | discriminate]. }
-      destruct (aschema_eqb ft (arrow_of (sfields ts))) eqn:EQ.
-      + destruct (IH _ _ _ C1 H) as [C2 P]. split; [exact C2|]. intros O q [->|Hq]; [|exact (P O q Hq)].
-        unfold footer_of. rewrite F. apply aschema_eqb_eq. exact EQ.
-      + inversion H; subst. split; [exact C1 | discriminate].
-  Qed.
-
+  Proof. apply invp_init. Qed.
+  Lemma it_schema w : InvT w -> w_schema w = Some ts.
+  Proof. intro I. exact (ip_schema _ w I). Qed.
+  Lemma it_files w : InvT w -> forall snap f, In snap (w_snaps w) -> In f snap -> df_arrow f = A.
+  Proof. intro I. exact (ip_files _ w I). Qed.
   Lemma invt_set_cache w h c : InvT w -> cache_ok ts c -> InvT (set_cache w h c).
-  Proof.
-    intros I C. constructor; simpl; try apply I. intros h0 c0 [E|H]; [inversion E; subst; exact C | exact (it_caches w I h0 c0 H)].
-  Qed.
-
-  Lemma invt_with_store w st n : InvT w -> InvT (with_store w st n).
-  Proof. intro I. constructor; simpl; apply I. Qed.
-
-  Lemma stage_records_invt late w h arg recs w' fo wr t : InvT w -> stage_records conv late w h arg recs = (w', fo, wr, t) ->
-    InvT w' /\ forall f, fo = Some f -> df_arrow f = A.
-  Proof.
-    intros I. unfold stage_records. rewrite (it_schema w I).
-    destruct (resolve (Some ts) arg) as [s|o] eqn:R.
-    2:{ intro H; inversion H; subst. split; [exact I | discriminate]. }
-    pose proof (resolve_fields ts _ _ R) as F.
-    destruct (negb (forallb (validate_record (sfields s)) recs)); [intro H; inversion H; subst; split; [exact I | discriminate]|].
-    destruct (create_arrow_schema (cache_of w h) s) as [a c'] eqn:CA.
-    destruct (create_ok ts _ _ _ _ (invt_cache_of w h I) F CA) as [Ea Cc]. subst a.
-    pose proof (invt_set_cache w h c' I Cc) as I1.
-    destruct (convert conv (arrow_of (sfields ts)) recs) as [rows|]; [|intro H; inversion H; subst; split; [exact I1 | discriminate]].
-    destruct (bounds_for (sfields s) (arrow_of (sfields ts)) rows) as [lo hi].
-    set (w2 := with_store (set_cache w h c') (w_next w :: w_store (set_cache w h c')) (w_next w + 1)).
-    pose proof (invt_with_store _ (w_next w :: w_store (set_cache w h c')) (w_next w + 1) I1) as I2. fold w2 in I2.
-    destruct late; [intro H; inversion H; subst; split; [exact I2 | discriminate]|].
-    match goal with |- context [check_files ?x ?y ?z] => destruct (check_files x y z) as [c2 ok] eqn:CF end.
-    assert (E2 : w_schema w2 = Some ts) by (exact (it_schema w2 I2)).
-    rewrite E2 in CF. destruct (check_files_ok _ _ _ _ (invt_cache_of w2 h I2) CF) as [C2 _].
-    pose proof (invt_set_cache w2 h c2 I2 C2) as I3.
-    destruct ok; intro H; inversion H; subst; (split; [exact I3|]).
-    - intros f E. inversion E; subst. reflexivity.
-    - discriminate.
-  Qed.
-
-  Lemma call_records_invt late w h arg recs w' wr t added : InvT w -> call_records conv late w h arg recs = (w', wr, t, added) ->
-    InvT w' /\ forall f, In f added -> df_arrow f = A.
-  Proof.
-    intros I. unfold call_records. destruct (stage_records conv late w h arg recs) as [[[w1 fo] wr1] t1] eqn:S.
-    destruct (stage_records_invt _ _ _ _ _ _ _ _ _ I S) as [I1 P].
-    destruct fo as [f0|]; intro H; inversion H; subst; (split; [exact I1|]).
-    - intros f [<-|[]]. apply P. reflexivity.
-    - intros f [].
-  Qed.
-
-  Lemma call_files_invt w h fs w' wr t added : InvT w -> call_files w h fs = (w', wr, t, added) ->
-    InvT w' /\ forall f, In f added -> df_arrow f = A.
-  Proof.
-    intros I. unfold call_files. rewrite (it_schema w I).
-    destruct (check_files (Some ts) (cache_of w h) fs) as [c' ok] eqn:CF.
-    destruct (check_files_ok _ _ _ _ (invt_cache_of w h I) CF) as [C1 P].
-    pose proof (invt_set_cache w h c' I C1) as I1.
-    destruct ok; intro H; inversion H; subst; (split; [exact I1|]).
-    - intros f Hf. apply in_map_iff in Hf. destruct Hf as [p [<- Hp]]. simpl. exact (P eq_refl p Hp).
-    - intros f [].
-  Qed.
-
-  Lemma call_step_invt w h c w' wr t added : InvT w -> call_step conv w h c = (w', wr, t, added) ->
-    InvT w' /\ forall f, In f added -> df_arrow f = A.
-  Proof.
-    intros I. destruct c as [arg recs|fs|ft arg recs|ft fs]; simpl.
-    - apply call_records_invt; exact I.
-    - apply call_files_invt; exact I.
-    - destruct ft.
-      + intro H; inversion H; subst. split; [exact I | intros f []].
-      + destruct (resolve (w_schema w) arg); intro H; inversion H; subst; (split; [exact I | intros f []]).
-      + apply call_records_invt; exact I.
-    - destruct ft; try (apply call_files_invt; exact I). intro H; inversion H; subst. split; [exact I | intros f []].
-  Qed.
-
-  Lemma run_calls_invt h cs : forall w q w' q' tr, InvT w -> (forall f, In f (q_files q) -> df_arrow f = A) ->
-    run_calls conv w q h cs = (w', q', tr) -> InvT w' /\ forall f, In f (q_files q') -> df_arrow f = A.
-  Proof.
-    induction cs as [|c cs IH]; simpl; intros w q w' q' tr I Q H.
-    - inversion H; subst. auto.
-    - destruct (call_step conv w h c) as [[[w1 wr] t] added] eqn:C.
-      destruct (run_calls conv w1 (enqueue q wr added) h cs) as [[w2 q2] tr2] eqn:R.
-      inversion H; subst. destruct (call_step_invt _ _ _ _ _ _ _ I C) as [I1 Ad].
-      eapply IH; [exact I1| |exact R]. simpl. intros f Hf. apply in_app_or in Hf. destruct Hf; auto.
-  Qed.
-
+  Proof. apply invp_set_cache. Qed.
   Lemma run_tx_invt w t : InvT w -> InvT (run_tx conv w t).
-  Proof.
-    intro I. unfold run_tx. destruct (run_calls conv w tx_empty (t_handle t) (t_calls t)) as [[w1 q] tr] eqn:R.
-    assert (Q0 : forall f, In f (q_files tx_empty) -> df_arrow f = A) by (intros f []).
-    destruct (run_calls_invt _ _ _ _ _ _ _ I Q0 R) as [I1 Q].
-    destruct (t_end t) as [[|]| |]; simpl; auto; try (apply invt_with_store; exact I1).
-    2:{ destruct (q_files q); [exact I1 | apply invt_with_store; exact I1]. }
-    destruct (q_files q) as [|f0 fs0] eqn:QF; [exact I1|].
-    constructor; simpl; try apply I1. intros snap f [E|H] Hf.
-    - subst snap. apply in_app_or in Hf. destruct Hf as [Hf|Hf]; [|apply Q; exact Hf].
-      destruct (current_in _ _ Hf) as [sn [H1 H2]]. exact (it_files w1 I1 sn f H1 H2).
-    - exact (it_files w1 I1 snap f H Hf).
-  Qed.
-
+  Proof. intro I. apply (run_tx_invp has_layout any_pfile layout_records layout_files); [exact I | apply any_calls]. Qed.
   Lemma run_txs_invt txs : forall w, InvT w -> InvT (run_txs conv w txs).
-  Proof. induction txs as [|t txs IH]; simpl; intros w I; [exact I | apply IH, run_tx_invt, I]. Qed.
+  Proof. intros w I. apply (run_txs_invp has_layout any_pfile layout_records layout_files); [exact I | apply any_txs]. Qed.
+
+  Lemma invt_scan_ok w : InvT w -> scan_ok (current w) = true.
+  Proof.
+    intro I. apply (scan_ok_same A). intros f Hf. destruct (current_in _ _ Hf) as [sn [H1 H2]]. exact (it_files w I sn f H1 H2).
+  Qed.
 
   (* C11_tx_history_scans *)
   Lemma tx_history_scans txs :
     scan_ok (current (run_txs conv (init (Some ts)) txs)) = true /\ full_scan (run_txs conv (init (Some ts)) txs) <> None.
   Proof.
-    pose proof (run_txs_invt txs _ invt_init) as I.
-    assert (S : scan_ok (current (run_txs conv (init (Some ts)) txs)) = true).
-    { apply (scan_ok_same A). intros f Hf. destruct (current_in _ _ Hf) as [sn [H1 H2]]. exact (it_files _ I sn f H1 H2). }
+    pose proof (invt_scan_ok _ (run_txs_invt txs _ invt_init)) as S.
     split; [exact S|]. unfold full_scan. rewrite S. discriminate.
   Qed.
+
+  (* ---- instance 2: pruning never changes a filtered scan ----
+     Assumed of a pre-built file (a fact about parquet, like conv_kinds about pyarrow): every cell of a column
+     has the kind of the column's footer type. *)
+  Definition pf_typed (p : pfile) : Prop :=
+    forall row, In row (pf_rows p) -> forall c, has_kind (colkind (footer_of p) c) (cell (vrow row) c) = true.
+
+  Definition prunable (f : dfile) : Prop :=
+    df_arrow f = A
+    /\ ((df_lo f, df_hi f) = bounds_for T A (df_rows f) \/ (df_lo f = [] /\ df_hi f = []))
+    /\ (forall c, homogeneous (column (map vrow (df_rows f)) c)).
+
+  Section TxFilter.
+    Hypothesis CK : conv_kinds conv.
+    Hypothesis NDn : NoDup (map fname T).
+    Hypothesis NDi : NoDup (map fid T).
+
+    Lemma prunable_records : forall id rs rows lo hi, convert conv A rs = Some rows -> (lo, hi) = bounds_for T A rows ->
+      prunable {| df_id := id; df_arrow := A; df_rows := rows; df_lo := lo; df_hi := hi |}.
+    Proof.
+      intros id rs rows lo hi CV B. split; [reflexivity|]. split; [left; exact B|].
+      intro c. exact (converted_homogeneous conv CK A rs rows c CV).
+    Qed.
+
+    Lemma prunable_files : forall p, pf_typed p -> footer_of p = A -> prunable (to_dfile (Some ts) p).
+    Proof.
+      intros p Ty F. split; [exact F|]. split.
+      - unfold to_dfile, verified_bounds. simpl.
+        destruct (pf_lo p), (pf_hi p); simpl; try (left; rewrite F; symmetry; apply surjective_pairing). right; auto.
+      - intro c. exists (colkind (footer_of p) c). intros v Hv. simpl in Hv. unfold column in Hv. rewrite map_map in Hv.
+        apply in_map_iff in Hv. destruct Hv as [row [E Hrow]]. subst v. exact (Ty row Hrow c).
+    Qed.
+
+    Lemma tx_history_filter X txs fs : Forall (txn_Q pf_typed) txs ->
+      let w := run_txs conv (init (Some ts)) txs in
+      filtered_scan X fs w = Some (filter (row_selected X fs) (map vrow (flat_map df_rows (current w)))).
+    Proof.
+      intros QT w.
+      pose proof (run_txs_invp prunable pf_typed prunable_records prunable_files txs _ (invp_init prunable) QT) as I. fold w in I.
+      apply (filtered_scan_files ts); [exact (ip_schema _ w I)|].
+      intros f Hf. destruct (current_in _ _ Hf) as [sn [H1 H2]]. destruct (ip_files _ w I sn f H1 H2) as [Ea [Eb Hom]].
+      split; [exact Ea|]. intro M. destruct Eb as [Eb|[E1 E2]].
+      - exact (pruned_bounds_empty ts NDn NDi X fs (df_lo f) (df_hi f) (df_rows f) Eb Hom M).
+      - rewrite E1, E2, file_may_match_nobounds in M. discriminate.
+    Qed.
+  End TxFilter.
+
+  (* ---- the full scan returns exactly what the accepted calls supplied (under conv_sound) ---- *)
+  Section TxExact.
+    Variable rnd32 : Q -> num.
+    Hypothesis CS : conv_sound rnd32 conv.
+
+    (* what a call contributes: the canonical rows of its records / the rows of its files when it was accepted
+       (tag 0), nothing when it raised *)
+    Definition call_expected (c : call) (t : Z) : list srow :=
+      if t =? 0 then
+        match c with
+        | CRecords _ recs | CRecordsF _ _ recs => map (canon_row rnd32 T) recs
+        | CFiles fs | CFilesF _ fs => flat_map pf_rows fs
+        end
+      else [].
+
+    Fixpoint calls_expected (w : world) (h : Z) (cs : list call) : list srow :=
+      match cs with
+      | [] => []
+      | c :: cs' =>
+        match call_step conv w h c with
+        | (w', _, t, _) => call_expected c t ++ calls_expected w' h cs'
+        end
+      end.
+
+    Definition tx_expected (w : world) (t : txn) : list srow :=
+      match t_end t with EndCommit true => calls_expected w (t_handle t) (t_calls t) | _ => [] end.
+
+    Fixpoint txs_expected (w : world) (txs : list txn) : list srow :=
+      match txs with [] => [] | t :: r => tx_expected w t ++ txs_expected (run_tx conv w t) r end.
+
+    Lemma stage_records_rows s1 m s2 w h arg recs w' fo wr t : seen_ok s1 -> seen_ok s2 -> InvT w ->
+      stage_records conv s1 m s2 w h arg recs = (w', fo, wr, t) ->
+      match fo with Some f => t = 0 /\ df_rows f = map (canon_row rnd32 T) recs | None => t <> 0 end.
+    Proof.
+      intros [->| ->] K2 I; unfold stage_records; [intro H; inversion H; subst; discriminate|].
+      destruct (resolve (Some ts) arg) as [s|o] eqn:R.
+      2:{ intro H; inversion H; subst. exact (resolve_inr_tag _ _ _ R). }
+      pose proof (resolve_fields ts _ _ R) as F.
+      destruct (m && marker_failure_propagates); [intro H; inversion H; subst; discriminate|].
+      destruct (forallb (validate_record (sfields s)) recs) eqn:V; cbn [negb]; [|intro H; inversion H; subst; discriminate].
+      destruct (create_arrow_schema (cache_of w h) s) as [a c'] eqn:CA.
+      destruct (create_ok ts _ _ _ _ (invp_cache_of _ w h I) F CA) as [Ea Cc]. subst a.
+      destruct (convert conv (arrow_of (sfields ts)) recs) as [rows|] eqn:CV; [|intro H; inversion H; subst; discriminate].
+      rewrite F in *. destruct (bounds_for (sfields ts) (arrow_of (sfields ts)) rows) as [lo hi].
+      destruct K2 as [->| ->]; [intro H; inversion H; subst; discriminate|].
+      match goal with |- context [check_files ?x ?y ?z] => destruct (check_files x y z) as [c2 ok] end.
+      destruct ok; intro H; inversion H; subst; [|discriminate].
+      split; [reflexivity|]. simpl. exact (convert_canon rnd32 conv CS ts recs rows V CV).
+    Qed.
+
+    Lemma call_step_rows w h c w' wr t added : InvT w -> call_step conv w h c = (w', wr, t, added) ->
+      flat_map df_rows added = call_expected c t.
+    Proof.
+      intro I. pose proof (seen_schema_ok has_layout false w I) as K0. pose proof (seen_schema_ok has_layout true w I) as K1.
+      assert (R : forall s1 m s2 arg recs, seen_ok s1 -> seen_ok s2 -> call_records conv s1 m s2 w h arg recs = (w', wr, t, added) ->
+                  flat_map df_rows added = if t =? 0 then map (canon_row rnd32 T) recs else []).
+      { intros s1 m s2 arg recs Ka Kb. unfold call_records.
+        destruct (stage_records conv s1 m s2 w h arg recs) as [[[w1 fo] wr1] t1] eqn:S.
+        pose proof (stage_records_rows _ _ _ _ _ _ _ _ _ _ _ Ka Kb I S) as G.
+        destruct fo as [f|]; intro H; inversion H; subst.
+        - destruct G as [-> G]. simpl. rewrite app_nil_r. exact G.
+        - destruct (Z.eqb_spec t 0); [contradiction | reflexivity]. }
+      assert (Fl : forall s1 fs, call_files s1 w h fs = (w', wr, t, added) ->
+                  flat_map df_rows added = if t =? 0 then flat_map pf_rows fs else []).
+      { intros s1 fs. unfold call_files. destruct s1 as [t1|]; [|intro H; inversion H; subst; reflexivity].
+        destruct (check_files t1 (cache_of w h) fs) as [c' ok]. destruct ok; intro H; inversion H; subst; [|reflexivity].
+        simpl. apply rows_to_dfile. }
+      unfold call_expected. destruct c as [arg recs|fs|ft arg recs|ft fs]; unfold call_step.
+      - apply R; assumption.
+      - apply Fl.
+      - destruct ft; apply R; assumption.
+      - destruct ft; apply Fl.
+    Qed.
+
+    Lemma run_calls_rows h cs : forall w q w' q' tr, InvT w -> run_calls conv w q h cs = (w', q', tr) ->
+      flat_map df_rows (flat_map snd tr) = calls_expected w h cs.
+    Proof.
+      induction cs as [|c cs IH]; simpl; intros w q w' q' tr I H.
+      - inversion H; subst. reflexivity.
+      - destruct (call_step conv w h c) as [[[w1 wr] t] added] eqn:C.
+        destruct (run_calls conv w1 (enqueue q wr added) h cs) as [[w2 q2] tr2] eqn:R.
+        inversion H; subst. simpl. rewrite flat_map_app.
+        rewrite (call_step_rows _ _ _ _ _ _ _ I C).
+        destruct (call_step_invp has_layout any_pfile layout_records layout_files _ _ _ _ _ _ _ I (Forall_inv (any_calls [c])) C) as [I1 _].
+        rewrite (IH _ _ _ _ _ I1 R). reflexivity.
+    Qed.
+
+    Lemma run_tx_rows w t : InvT w ->
+      flat_map df_rows (current (run_tx conv w t)) = flat_map df_rows (current w) ++ tx_expected w t.
+    Proof.
+      intro I. unfold run_tx, tx_expected.
+      destruct (run_calls conv w tx_empty (t_handle t) (t_calls t)) as [[w1 q] tr] eqn:R.
+      destruct (run_calls_spec _ _ _ _ _ _ _ R) as [Qe [_ [_ S2]]]. simpl in Qe.
+      pose proof (run_calls_rows _ _ _ _ _ _ _ I R) as RR.
+      assert (C1 : current w1 = current w) by (unfold current; rewrite S2; reflexivity).
+      destruct (t_end t) as [[|]| |]; simpl.
+      - destruct (q_files q) as [|f0 fs0] eqn:QF.
+        + rewrite <- RR, <- Qe. simpl. rewrite app_nil_r, C1. reflexivity.
+        + unfold current at 1. simpl. rewrite flat_map_app, C1, <- RR, <- Qe. reflexivity.
+      - destruct (q_files q); rewrite app_nil_r; unfold current; simpl; fold (current w1); rewrite C1; reflexivity.
+      - rewrite app_nil_r. unfold current. simpl. fold (current w1). rewrite C1. reflexivity.
+      - rewrite app_nil_r, C1. reflexivity.
+    Qed.
+
+    Lemma run_txs_exact txs : forall w, InvT w ->
+      full_scan (run_txs conv w txs) = Some (flat_map df_rows (current w) ++ txs_expected w txs).
+    Proof.
+      induction txs as [|t txs IH]; simpl; intros w I.
+      - rewrite app_nil_r. unfold full_scan. rewrite (invt_scan_ok w I). reflexivity.
+      - rewrite (IH _ (run_tx_invt w t I)). rewrite (run_tx_rows w t I), app_assoc. reflexivity.
+    Qed.
+
+    (* C11_tx_exact_partial *)
+    Lemma tx_exact_history txs :
+      full_scan (run_txs conv (init (Some ts)) txs) = Some (txs_expected (init (Some ts)) txs).
+    Proof. rewrite (run_txs_exact txs _ invt_init). reflexivity. Qed.
+  End TxExact.
 End TxProofs.
+
+(* ---- the statements of Props/C11.v ---- *)
+Lemma tx_filter_history conv X ts txs fs :
+  conv_kinds conv -> NoDup (map fname (sfields ts)) -> NoDup (map fid (sfields ts)) ->
+  Forall (txn_Q pf_typed) txs ->
+  let w := run_txs conv (init (Some ts)) txs in
+  filtered_scan X fs w = Some (filter (row_selected X fs) (map vrow (flat_map df_rows (current w)))).
+Proof. intros CK NDn NDi QT. exact (tx_history_filter conv ts CK NDn NDi X txs fs QT). Qed.
+
+Lemma tx_exact rnd32 conv : conv_sound rnd32 conv -> forall ts txs,
+  full_scan (run_txs conv (init (Some ts)) txs) = Some (txs_expected conv ts rnd32 (init (Some ts)) txs).
+Proof. intros CS ts txs. exact (tx_exact_history conv ts rnd32 CS txs). Qed.
